@@ -23,6 +23,8 @@ pub enum Output {
     Stream(u8),
     /// a stream whose k-th element raises (lazily): only the weak clauses are asserted
     StreamErr(u8, u8),
+    /// the closure leaves through `return <value>` before its last expression
+    EarlyReturn(Val),
 }
 
 #[derive(Clone, Debug, PartialEq, Serialize, Deserialize)]
@@ -97,6 +99,7 @@ pub fn strategy() -> BoxedStrategy<C19Case> {
             4 => proptest::collection::vec(prop_oneof![6 => val_out(), 1 => Just(Val::Nothing)], 0..5).prop_map(Output::Values),
             2 => (1u8..5).prop_map(Output::Stream),
             1 => (2u8..5, 0u8..4).prop_map(|(n, k)| Output::StreamErr(n, k % n)),
+            1 => val_out().prop_map(Output::EarlyReturn),
         ],
         prop_oneof![8 => Just(Broken::No), 2 => Just(Broken::RuntimeError), 1 => Just(Broken::BadBuiltinArg), 1 => Just(Broken::StreamIntoAppend), 1 => Just(Broken::Parse), 1 => Just(Broken::NoRun)],
         (prop_oneof![3 => Just(false), 1 => Just(true)], proptest::bool::weighted(0.15)),
@@ -183,6 +186,7 @@ fn render(def: &Def) -> String {
         Output::Single(v) => s.push_str(&format!("    {}\n", v.nu())),
         Output::Values(vs) => s.push_str(&format!("    [{}]\n", vs.iter().map(|v| v.nu()).collect::<Vec<_>>().join(", "))),
         Output::Stream(n) => s.push_str(&format!("    1..{n} | each {{|i| $\"s($i)\"}}\n")),
+        Output::EarlyReturn(v) => s.push_str(&format!("    if ($frame.topic | str ends-with \".call\") {{ return ({}) }}\n    \"unreachable\"\n", v.nu())),
         Output::StreamErr(n, k) => s.push_str(&format!(
             "    1..{n} | each {{|i| if $i == {} {{ error make {{msg: \"late\"}} }} else {{ $\"s($i)\" }} }}\n",
             k + 1
@@ -198,6 +202,7 @@ fn expected_values(def: &Def) -> Option<Vec<serde_json::Value>> {
         Output::Single(v) => Some(vec![v.json()]),
         Output::Values(vs) => Some(vs.iter().map(|v| v.json()).collect()),
         Output::Stream(n) => Some((1..=*n).map(|i| serde_json::json!(format!("s{i}"))).collect()),
+        Output::EarlyReturn(v) => Some(vec![v.json()]),
         Output::StreamErr(..) => None,
     }
 }
